@@ -43,7 +43,11 @@ def report(chk, key, what, payload):
     While the oracle judges a schedule whose trace correspondence is broken the complaint goes to
     chk.disagree: the oracle reads counters kept by the gates, and a bypassed gate (a harmless
     rewrite of jit.py) must not produce a concrete violation."""
-    if _ROUTE["diffs"]:
+    # complaints read off the OUTCOME of a request (it raised something other than TimeoutError in a run without injected
+    # faults, it returned a kernel computing wrong values) do not depend on the gates' counters: they are observations of
+    # the real code on this schedule and stay concrete failing inputs even when the trace no longer matches the model
+    outcome_based = key.startswith("request:raised:") or key == "kernel:wrong-result"
+    if _ROUTE["diffs"] and not outcome_based:
         cnt = chk.notes.setdefault("oracle_complaints_on_broken_tie", {})
         cnt[key] = cnt.get(key, 0) + 1
         if cnt[key] == 1:
